@@ -45,7 +45,7 @@ PROFILES = {
         caps=[0, 1, 2, None], nprocs=[2, 3], nops=[1, 2, 3], payloads=["w1", "b3"]),
     "fifo": dict(
         send=[("send", 6), ("asend_await", 4), ("send_timeout_long", 2), ("try_send", 2)],
-        recv=[("recv", 6), ("try_recv", 3), ("drain_into", 3), ("arecv_await", 3), ("stream_long", 2), ("recv_timeout", 1)],
+        recv=[("recv", 6), ("try_recv", 3), ("try_recv_realtime", 3), ("drain_into", 3), ("arecv_await", 3), ("stream_long", 2), ("recv_timeout", 2)],
         caps=[0, 1, 1, 2, 2, None], nprocs=[3, 3, 4], nops=[3, 3, 4], payloads=["w1", "b3", "h4"], late=0.25,
         sides=["s", "s", "r"]),
     "capacity": dict(
@@ -57,8 +57,10 @@ PROFILES = {
         recv=[("recv", 4), ("try_recv", 2), ("recv_timeout", 2), ("drain_into", 1), ("arecv", 3), ("stream", 1), ("close", 3), ("obs", 2), ("is_terminated", 1), ("clone", 1)],
         caps=[0, 0, 1, 2, None], nprocs=[2, 3, 3, 4], nops=[2, 3, 4], payloads=["w1", "b3", "h4"], late=0.3),
     "disconnect": dict(
-        send=[("send", 4), ("try_send", 2), ("send_timeout", 1), ("asend", 3), ("drop", 3), ("clone", 2), ("obs", 1)],
-        recv=[("recv", 4), ("try_recv", 2), ("recv_timeout", 1), ("drain_into", 1), ("arecv", 3), ("stream", 1), ("drop", 3), ("clone", 2), ("obs", 1), ("is_terminated", 1)],
+        send=[("send", 4), ("try_send", 2), ("try_send_realtime", 1), ("try_send_option", 1), ("send_timeout", 1), ("send_option_timeout", 1),
+              ("asend", 3), ("drop", 3), ("clone", 2), ("obs", 1)],
+        recv=[("recv", 4), ("try_recv", 2), ("try_recv_realtime", 2), ("recv_timeout", 2), ("drain_into", 2), ("iter_next", 1), ("arecv", 3),
+              ("stream", 1), ("drop", 3), ("clone", 2), ("obs", 1), ("is_terminated", 1)],
         caps=[0, 0, 1, 2, None], nprocs=[2, 3, 3, 4], nops=[2, 3, 4], payloads=["w1", "b3"], late=0.3),
     "l2": dict(
         send=[("send", 6), ("try_send", 3), ("send_timeout", 2), ("send_option_timeout", 2), ("try_send_option", 1),
@@ -305,11 +307,11 @@ def gen_chain(rng, payload=None, cap="rand", side=None):
         f = 0
         i = 0
         while i < nrecv:
-            o = rng.choice(["recv", "recv", "try_recv", "drain", "recv_timeout", "arecv", "stream", "iter_next"])
+            o = rng.choice(["recv", "recv", "try_recv", "try_recv_realtime", "drain", "recv_timeout", "arecv", "stream", "iter_next"])
             if o == "recv":
                 rops.append({"op": "recv", "h": 0})
-            elif o == "try_recv":
-                rops.append({"op": "try_recv", "h": 0})
+            elif o in ("try_recv", "try_recv_realtime"):
+                rops.append({"op": o, "h": 0})
             elif o == "iter_next":
                 rops.append({"op": "iter_next", "h": 0})
             elif o == "recv_timeout":
@@ -349,11 +351,12 @@ def gen_chain(rng, payload=None, cap="rand", side=None):
             procs.append({"phase": 0, "handles": [rng.choice(["sr", "ar"])], "ops": ops})
         sops = [{"op": "barrier", "ph": serve_ph}]
         for _ in range(k + (capv or 0)):
-            o = rng.choice(["send", "try_send", "send_timeout", "asend", "try_send_option"])
+            o = rng.choice(["send", "try_send", "send_timeout", "asend", "try_send_option", "try_send_realtime",
+                            "try_send_option_realtime", "send_option_timeout"])
             m = nm()
             if o == "asend":
                 sops += [{"op": "asend_new", "h": 0, "f": 0, "m": m}, {"op": "await", "f": 0, "w": 1}]
-            elif o == "send_timeout":
+            elif o in ("send_timeout", "send_option_timeout"):
                 sops.append({"op": o, "h": 0, "m": m, "d": 400})
             else:
                 sops.append({"op": o, "h": 0, "m": m})
@@ -642,6 +645,7 @@ def handle_seq_programs(length, flavs=("ss", "aa", "sa", "as"), caps=(1,), prefi
     oldest handle, on either side, plus close), each followed by an observing suffix on whatever handles are left."""
     import itertools
     muts = [(o, sd) for o in HANDLE_MUT for sd in "sr"] + [("close", "s"), ("close", "r")]
+    nvar = [0]
     for cap in caps:
         for flav in flavs:
             for pre in prefill:
@@ -655,8 +659,17 @@ def handle_seq_programs(length, flavs=("ss", "aa", "sa", "as"), caps=(1,), prefi
                     for sd in "sr":
                         for o in ("sender_count", "receiver_count", "is_closed", "is_disconnected"):
                             ops.append({"op": o, "hs": sd})
-                    ops += [{"op": "is_terminated", "hs": "r"}, {"op": "try_recv", "hs": "r"}, {"op": "try_recv", "hso": "r"},
-                            {"op": "try_send", "hs": "s", "m": 9}, {"op": "try_recv", "hs": "r"}]
+                    # the first value-taking call after the handle operations rotates over all receive variants
+                    nvar[0] += 1
+                    first = [{"op": "try_recv", "hs": "r"}, {"op": "try_recv_realtime", "hs": "r"}, {"op": "recv_timeout", "hs": "r", "d": 0},
+                             {"op": "drain_into", "hs": "r", "pre": 0, "spare": 0}, {"op": "iter_next", "hs": "r"},
+                             {"op": "arecv_new", "hs": "r", "f": 0}][nvar[0] % 6]
+                    ops += [{"op": "is_terminated", "hs": "r"}, first]
+                    if first["op"] == "arecv_new":
+                        ops += [{"op": "poll", "f": 0, "w": 1}, {"op": "drop_fut", "f": 0}]
+                    snd = [{"op": "try_send", "hs": "s", "m": 9}, {"op": "try_send_realtime", "hs": "s", "m": 9},
+                           {"op": "send_timeout", "hs": "s", "m": 9, "d": 0}, {"op": "try_send_option", "hs": "s", "m": 9}][nvar[0] % 4]
+                    ops += [{"op": "try_recv", "hso": "r"}, snd, {"op": "try_recv", "hs": "r"}]
                     yield {"cap": cap, "payload": "w1", "execs": 1,
                            "procs": [{"phase": 0, "handles": [flav[0] + "s", flav[1] + "r"], "ops": ops}]}
 
